@@ -58,8 +58,9 @@ class CallableHandler:
 HANDLERS = [make_handler(0), functools.partial(make_handler(1)),
             CallableHandler(make_handler(2))]
 HOOKS = [make_hook(i) for i in range(2)]
-EXCS = [ValueError, KeyError, TypeError]
-CODES = [404, 500, 405, 418]
+EXCS = [ValueError, KeyError, TypeError, TimeoutError]
+CODES = [404, 500, 405, 418, 204]
+BUILTIN_PAGES = (304, 400, 401, 403, 404, 405, 500, 501)
 
 # uris for set/pop/is_route: (text, is_group, identifier).  The identifier of
 # a group uri is that of the pattern it must translate to.
@@ -399,7 +400,9 @@ class Ref:
         if handler is not None:
             log.append(("h", handler))
             status = 200
-            if fire is not None:
+            if isinstance(fire, tuple):
+                status = fire[1]
+            elif fire is not None:
                 eh = self.map.get(("error", fire, bit))
                 if eh is not None:
                     log.append(("h", eh))
@@ -410,6 +413,8 @@ class Ref:
             if sh is not None:
                 log.append(("h", sh))
                 status = 200
+            elif status not in BUILTIN_PAGES:
+                status = 501        # no page of its own
         log += [("k", i) for i in self.after]
         return log, status
 
@@ -576,8 +581,8 @@ def hostile_op(rng):
     if choice == 12:
         return ("pop_state", rng.choice(CODES), rng.choice(meths))
     if choice == 13:
-        return ("set_error", rng.randrange(3), h, rng.choice(masks), 0)
-    return ("pop_error", rng.randrange(3), rng.choice(meths))
+        return ("set_error", rng.randrange(len(EXCS)), h, rng.choice(masks), 0)
+    return ("pop_error", rng.randrange(len(EXCS)), rng.choice(meths))
 
 
 # ------------------------------------------------------------------- driver
@@ -651,7 +656,7 @@ class Runner:
                 hit = ref.reachable(bit)
                 if hit is None:
                     continue
-                for exc in (0, 1):
+                for exc in (0, 1, 3, ("abort", 418), ("abort", 204)):
                     plan.append((name, bit, hit[0], hit[1], exc))
         for name, bit, path, target, exc in plan:
             want = ref.expect(bit, target, exc)
@@ -660,7 +665,12 @@ class Runner:
                 continue
             del LOG[:]
             del FIRE[:]
-            if exc is not None:
+            if isinstance(exc, tuple):
+                # the handler aborts with a status: the handler registered
+                # for (status, method) answers, whatever the status is
+                from poorwsgi.response import HTTPException
+                FIRE.append(lambda msg, code=exc[1]: HTTPException(code))
+            elif exc is not None:
                 FIRE.append(EXCS[exc])
             ans = call(app, environ(name, path))
             got = (list(LOG), ans.code)
@@ -670,7 +680,9 @@ class Runner:
                 self.ctx.violation("dispatch-differs-from-reference", {
                     "calls": [list(o) for o in ops[:i + 1]],
                     "request": [name, path],
-                    "fired": None if exc is None else EXCS[exc].__name__,
+                    "fired": None if exc is None else
+                    "abort(%d)" % exc[1] if isinstance(exc, tuple)
+                    else EXCS[exc].__name__,
                     "answered_by": repr(got), "reference": repr(want),
                     "raised": repr(ans.raised)})
 
